@@ -278,9 +278,57 @@ func runC12(c *Ctx) {
 
 	if w.killed {
 		w.crashOracle()
-		// unwind the flush goroutine so that the bubble can end
+		// unwind the flush goroutine so that the bubble can end; whatever the
+		// dead process still held in memory never reaches the device
 		w.sink.Dead = true
 		w.bws.Stop()
+		if r.Failed() {
+			return
+		}
+		// restart: a second syncer continues on the same device; the
+		// concatenation must still be whole writes, each once
+		w.sink.Dead = false
+		before := len(w.sink.Data)
+		bws2 := &zapcore.BufferedWriteSyncer{WS: w.sink, Size: w.size, FlushInterval: time.Second}
+		bws2.Clock = clk.For(unsafe.Pointer(bws2), unsafe.Sizeof(*bws2))
+		var fresh []*c12op
+		for k := 0; k < 1+g.Draw(3) && nextID < 126; k++ {
+			op := &c12op{kind: 'W', n: 1 + g.Draw(2*eff), id: nextID}
+			nextID++
+			for len(w.writes) <= op.id {
+				w.writes = append(w.writes, nil)
+			}
+			w.writes[op.id] = op
+			p := w.payload(op)
+			if n, err := bws2.Write(p); n != len(p) || err != nil {
+				c.Fail("C12: Write on a healthy sink did not accept the whole payload", "after restart: (%d, %v)", n, err)
+				return
+			}
+			fresh = append(fresh, op)
+		}
+		if err := bws2.Stop(); err != nil {
+			c.Fail("C12-E: Stop returned an error on a healthy sink", "after restart: %v", err)
+			return
+		}
+		ids, ok, why := w.parse(w.sink.Data)
+		if !ok {
+			c.Fail("C12-H: after a kill and a restart the sink does not hold whole caller writes", "%s", why)
+			return
+		}
+		seen := map[int]bool{}
+		for _, id := range ids {
+			if seen[id] {
+				c.Fail("C12-H: after a kill and a restart a caller write is in the sink twice", "write #%d", id)
+				return
+			}
+			seen[id] = true
+		}
+		tail, _, _ := w.parse(w.sink.Data[before:])
+		if len(tail) != len(fresh) {
+			c.Fail("C12-H: after a restart the new writes did not all reach the sink after the old content", "%d new writes, %d found after offset %d", len(fresh), len(tail), before)
+			return
+		}
+		r.Probe("restart after kill: second syncer continued on the same device")
 		return
 	}
 
